@@ -358,4 +358,81 @@ theorem dedup_idem (rs : List Rec) : dedup (dedup rs) = dedup rs := by
   rw [dedup_refines_spec]
   exact specAux_id out out [] hn (by simp) (fun k t hm => groupMin_unique out hn k t hm)
 
+
+/-! ### what the carried TTL is: a TTL of the group, and the smallest of them -/
+
+theorem foldl_min_le_init (ts : List Nat) (t : Nat) : ts.foldl min t ≤ t := by
+  induction ts generalizing t with
+  | nil => exact Nat.le_refl _
+  | cons a ts ih => exact Nat.le_trans (ih (min t a)) (Nat.min_le_left ..)
+
+theorem foldl_min_le_mem (ts : List Nat) (t x : Nat) (hx : x ∈ ts) : ts.foldl min t ≤ x := by
+  induction ts generalizing t with
+  | nil => cases hx
+  | cons a ts ih =>
+    rcases List.mem_cons.mp hx with h | h
+    · subst h; exact Nat.le_trans (foldl_min_le_init ts (min t x)) (Nat.min_le_right ..)
+    · exact ih (min t a) h
+
+theorem foldl_min_mem (ts : List Nat) (t : Nat) : ts.foldl min t = t ∨ ts.foldl min t ∈ ts := by
+  induction ts generalizing t with
+  | nil => exact Or.inl rfl
+  | cons a ts ih =>
+    rcases ih (min t a) with h | h
+    · rw [List.foldl_cons, h]
+      rcases Nat.le_total t a with hl | hl
+      · exact Or.inl (Nat.min_eq_left hl)
+      · exact Or.inr (by rw [Nat.min_eq_right hl]; exact List.mem_cons_self ..)
+    · exact Or.inr (List.mem_cons_of_mem _ h)
+
+/-- the group's minimum is below every TTL of the group … -/
+theorem groupMin_le (k : Nat) (rs : List Rec) (t : Nat) (hm : (k, t) ∈ rs) : groupMin k rs ≤ t := by
+  have hv : t ∈ vals k rs := by
+    unfold vals; exact List.mem_map.mpr ⟨(k, t), List.mem_filter.mpr ⟨hm, by simp⟩, rfl⟩
+  rw [groupMin_def]
+  match hvs : vals k rs, hv with
+  | [], hv => cases hv
+  | t0 :: ts, hv =>
+    rcases List.mem_cons.mp hv with h | h
+    · subst h; exact foldl_min_le_init ts t
+    · exact foldl_min_le_mem ts t0 t h
+
+/-- … and is the TTL of one of its records -/
+theorem groupMin_mem (k : Nat) (rs : List Rec) (hk : k ∈ keys rs) : (k, groupMin k rs) ∈ rs := by
+  have hne : vals k rs ≠ [] := fun h => (vals_nil_iff k rs).mp h hk
+  have key : groupMin k rs ∈ vals k rs := by
+    rw [groupMin_def]
+    match hvs : vals k rs, hne with
+    | [], hne => exact absurd rfl hne
+    | t0 :: ts, _ =>
+      rcases foldl_min_mem ts t0 with h | h
+      · show ts.foldl min t0 ∈ t0 :: ts
+        rw [h]; exact List.mem_cons_self ..
+      · exact List.mem_cons_of_mem _ h
+  unfold vals at key
+  obtain ⟨⟨k', t'⟩, hf, he⟩ := List.mem_map.mp key
+  obtain ⟨hm, hk'⟩ := List.mem_filter.mp hf
+  have : k' = k := by simpa using hk'
+  subst this; simp only at he; subst he; exact hm
+
+/-- **dedup_ttl_is_min**: every record `Dedup` returns carries a TTL that occurs in the input under the same key
+    and that no record of that key undercuts -/
+theorem dedup_ttl_is_min (rs : List Rec) (k t : Nat) (h : (k, t) ∈ dedup rs) :
+    (k, t) ∈ rs ∧ ∀ t', (k, t') ∈ rs → t ≤ t' := by
+  have hk : k ∈ keys rs := (dedup_keys_same rs k).mp (List.mem_map.mpr ⟨(k, t), h, rfl⟩)
+  rw [dedup_refines_spec, spec_eq] at h
+  obtain ⟨k', _, he⟩ := List.mem_map.mp h
+  have e1 : k' = k := congrArg Prod.fst he
+  subst e1
+  have e2 : groupMin k' rs = t := congrArg Prod.snd he
+  subst e2
+  exact ⟨groupMin_mem k' rs hk, fun t' hm => groupMin_le k' rs t' hm⟩
+
+/-- **dedup_length_le**: `Dedup` never returns more records than it was given -/
+theorem dedup_length_le (rs : List Rec) : (dedup rs).length ≤ rs.length := by
+  rw [dedup_refines_spec, spec_eq, List.length_map]
+  exact nubAux_length_le rs []
+
+example : dedup [(1, 30), (2, 5), (1, 10)] = [(1, 10), (2, 5)] := by decide
+
 end Dns.C20
